@@ -81,6 +81,7 @@ type Run struct {
 	selfErr    []string
 	required   []string
 	stop       atomic.Bool
+	stopAt     int
 	workers    []*W
 	MaxViol    int
 	Phases     []map[string]any
@@ -133,6 +134,9 @@ func NewRun(prop, tier, level, root string, seed int64) *Run {
 		Bounds: map[string]any{}, Exhaustive: true, MaxViol: 40}
 	if v := os.Getenv("VERIF_MAXVIOL"); v != "" {
 		fmt.Sscan(v, &r.MaxViol)
+	}
+	if v := os.Getenv("VERIF_STOPAT"); v != "" {
+		fmt.Sscan(v, &r.stopAt)
 	}
 	r.loadKnown()
 	go r.watchdog()
@@ -336,6 +340,9 @@ func (r *Run) Fail(c Case) {
 		r.violations = append(r.violations, c)
 	}
 	if int(r.nviol.Load()) >= 2000 && r.MaxViol <= 40 {
+		r.stop.Store(true)
+	}
+	if r.stopAt > 0 && int(r.nviol.Load()) >= r.stopAt { // dev-time (mutation sweep): first violation is enough
 		r.stop.Store(true)
 	}
 }
